@@ -43,7 +43,7 @@ CHECKS = {
              "repository's recipes, random splices, fence/front-matter, repetition and boundary-metadata families, under "
              "{none, all, compat} x {empty, bundled}. TLC judges each recorded call sequence against the protocol "
              "(spec/Trace_Api.tla): every call must be enabled and must RETURN (a panic, failed assertion, overflow or "
-             "watchdog timeout has no transition), and each raw event stream must obey the event grammar.",
+             "watchdog timeout has no transition), and each raw event stream must obey the event grammar. The inputs of the parser kernels (spec/MC_Parser.tla: components, quantities, modifiers, blocks, escapes, path-like names) run too: the pull parser and build_ast under the kernels' extension sets (judged by spec/Trace_Parser.tla) and the API programs under six extension subsets that switch single gates.",
         design="6 (C03), 3.11", technique="TLA+ API typestate model + TLC-generated call programs replayed on exhaustive corpora + trace validation",
         note="Trusted: TLC, catch_unwind sees every panic (debug assertions and overflow checks on), 10 s watchdog = hang. "
              "Exhaustive only up to the stated string length."),
@@ -197,7 +197,7 @@ CHECKS = {
              "parse / parse_metadata / parse_with_options(validator) / parse+scale+convert+group), with the baseline of "
              "every (operation, input) from a fresh parser; TLC validates each history against the model's notion of an "
              "explainable history (spec/Trace_Shared.tla): per-thread Begin/End alternation and every End carrying the "
-             "sequential baseline.",
+             "sequential baseline. Every baseline comes from a pristine process (one per operation x input x configuration), so that process-wide state of an earlier call cannot be in the baseline either.",
         design="6 (C18), 3.11", technique="TLA+ concurrency model checked exhaustively + trace validation of recorded multi-thread and sequential histories",
         note="Trusted: TLC; a 64-bit hash of JSON image + ordered diagnostics stands for the result. Real thread schedules are "
              "those the OS produces (their number is reported), not an exhaustive set."),
